@@ -519,6 +519,87 @@ fn delev_tx(e: &Env, s: &Store, withdraw_amt: u64, repay_amt: u64) -> Tx {
     Tx::new(ixs, &[risk])
 }
 
+/// "A forced deleverage is bracketed like a liquidation": every instruction list of length <= 4 over the risk
+/// admin's start / end for two accounts and a small repay / withdraw on each, signed by the risk admin only. Whatever
+/// commits leaves no receivership / deleverage marker on either account, and an account whose balances changed was
+/// bracketed by exactly one start and one end of its own, in that order, with the changes in between.
+fn deleverage_shapes(e: &Env, a: &mut Acc) -> u64 {
+    let w = &e.w;
+    let mut s = e.s.clone();
+    golden::fund_all_identities(e, &mut s);
+    let risk = w.roles.risk;
+    #[derive(Clone, Copy, Debug, PartialEq, Eq)]
+    enum Y {
+        Start(usize),
+        End(usize),
+        Repay(usize),
+        Withdraw(usize),
+    }
+    // u0 lends bank 0 and owes bank 1, u1 the other way round
+    let lend = |u: usize| if u == 0 { 0usize } else { 1 };
+    let owe = |u: usize| if u == 0 { 1usize } else { 0 };
+    let build = |y: Y| -> crate::svm::Ix {
+        match y {
+            Y::Start(u) => ix::start_deleverage(w.group, w.users[u].account, risk, w.risk_metas(&s, &w.users[u].account, None, None)),
+            Y::End(u) => ix::end_deleverage(w.group, w.users[u].account, risk, w.risk_metas(&s, &w.users[u].account, None, None)),
+            Y::Repay(u) => {
+                let b = &w.banks[owe(u)];
+                ix::repay(w.group, w.users[u].account, risk, b.key, golden::token_account_of(&s, &b.mint, &risk).unwrap(), b.token_program, 1_000, None, vec![])
+            }
+            Y::Withdraw(u) => {
+                let b = &w.banks[lend(u)];
+                ix::withdraw(w.group, w.users[u].account, risk, b.key, golden::token_account_of(&s, &b.mint, &risk).unwrap(), b.token_program, 10, None, w.risk_metas(&s, &w.users[u].account, None, None))
+            }
+        }
+    };
+    let alpha = [Y::Start(0), Y::Start(1), Y::End(0), Y::End(1), Y::Repay(0), Y::Withdraw(0), Y::Repay(1), Y::Withdraw(1)];
+    let mut lists: Vec<Vec<Y>> = vec![vec![]];
+    let mut all: Vec<Vec<Y>> = vec![];
+    for _ in 0..4 {
+        let mut next = vec![];
+        for l in &lists {
+            for y in alpha {
+                let mut q = l.clone();
+                q.push(y);
+                next.push(q);
+            }
+        }
+        all.extend(next.iter().cloned());
+        lists = next;
+    }
+    let shares = |st: &Store, u: usize| -> Vec<(i128, i128)> { world::account(st, &w.users[u].account).lending_account.balances.iter().map(|b| (b.asset_shares.value.iter().fold(0i128, |acc, x| acc.wrapping_mul(31).wrapping_add(*x as i128)), b.liability_shares.value.iter().fold(0i128, |acc, x| acc.wrapping_mul(31).wrapping_add(*x as i128)))).collect() };
+    let mut n = 0u64;
+    for l in &all {
+        let tx = Tx::new(l.iter().map(|y| build(*y)).collect(), &[risk]);
+        let mut t = s.clone();
+        let r = process_tx(&mut t, &tx);
+        n += 1;
+        if !r.ok() {
+            *a.classes.entry("deleverage_shapes:refused".into()).or_insert(0) += 1;
+            continue;
+        }
+        *a.classes.entry("deleverage_shapes:committed".into()).or_insert(0) += 1;
+        let rep = json!({"model": "C12shapes", "shape": format!("{:?}", l)});
+        for u in 0..2 {
+            let acct = world::account(&t, &w.users[u].account);
+            if acct.account_flags & (marginfi_type_crate::types::ACCOUNT_IN_RECEIVERSHIP | marginfi_type_crate::types::ACCOUNT_IN_DELEVERAGE) != 0 {
+                a.found.push(Found { clause: "C12.deleverage_bracketed".into(), sig: format!("marker:{:?}", l), detail: format!("{:?} committed and left the receivership / deleverage marker on account u{u}", l), replay: rep.clone() });
+            }
+            let starts: Vec<usize> = l.iter().enumerate().filter(|(_, y)| **y == Y::Start(u)).map(|(i, _)| i).collect();
+            let ends: Vec<usize> = l.iter().enumerate().filter(|(_, y)| **y == Y::End(u)).map(|(i, _)| i).collect();
+            let body: Vec<usize> = l.iter().enumerate().filter(|(_, y)| **y == Y::Repay(u) || **y == Y::Withdraw(u)).map(|(i, _)| i).collect();
+            let well_formed = starts.len() == 1 && ends.len() == 1 && starts[0] == 0 && ends[0] == l.len() - 1 && body.iter().all(|i| *i > starts[0] && *i < ends[0]);
+            if shares(&s, u) != shares(&t, u) && !well_formed {
+                a.found.push(Found { clause: "C12.deleverage_bracketed".into(), sig: format!("shape:{:?}", l), detail: format!("{:?} committed and changed the balances of u{u} although the list is not [start(u{u}), repay / withdraw on u{u} ..., end(u{u})]", l), replay: rep.clone() });
+            }
+            if shares(&s, u) != shares(&t, u) {
+                *a.classes.entry("deleverage_shapes:committed_with_balance_change".into()).or_insert(0) += 1;
+            }
+        }
+    }
+    n
+}
+
 fn deleverage(e: &Env, tier: Tier, a: &mut Acc) -> (u64, u64) {
     let mut s0 = e.s.clone();
     golden::fund_all_identities(e, &mut s0);
@@ -687,7 +768,13 @@ pub fn run(tier: Tier) -> Outcome {
     // the bracket grid of C10 driven by the risk admin: partial amounts and close-outs on healthy and unhealthy accounts
     let dg = super::c10::deleverage_grid(tier, &mut a.classes, &mut a.found);
     a.cells += dg;
+    let dsh = deleverage_shapes(&e, &mut a);
+    a.cells += dsh;
+    let shapes_vacuous = !a.classes.contains_key("deleverage_shapes:committed_with_balance_change") || !a.classes.contains_key("deleverage_shapes:refused");
     let mut o = Outcome { level: "exploration".into(), ..Default::default() };
+    if shapes_vacuous {
+        o.machinery.push("vacuity guard: the deleverage shape enumeration never committed a bracket with a balance change, or never refused a list".into());
+    }
     o.found = a.found;
     let wrote: u64 = a.classes.iter().filter(|(k, _)| k.ends_with(":wrote")).map(|(_, v)| *v).sum();
     for kind in ["interest_only", "limits_only", "emode", "update_emissions", "setup_emissions", "metadata", "force_tokenless_repay_complete"] {
